@@ -771,6 +771,86 @@ namespace plan
       // The facts are stated before the goal (see KF-P8). `block_text` is the block alone, which plan_main hands to a fresh solver.
       if (m.unit != 0 || m.preds.size() >= 6 || !block_text.empty())
         return;
+      if (modn(op.arg(0), 5) == 4)
+      { // two goals compete for the only fact, and the rule states a Boolean disjunction (the shape KF-P11 was reduced to):
+        //   predicate U(real a) { ub | uc; ux == a; }   fact f = new U();  goal g1 = new U(a:k1);  goal g2 = new U(a:k2);   k1 != k2
+        // one goal is activated (ux = its argument), the other one unified with the fact: solvable by construction
+        auto decl_var = [&](const char *kind)
+        {
+          Op o;
+          o.name = kind;
+          o.a = {0};
+          apply(o);
+        };
+        decl_var("real");
+        const std::string ux = m.reals.back();
+        decl_var("bool");
+        const std::string ub = m.bools.back();
+        decl_var("bool");
+        const std::string uc = m.bools.back();
+        const int pu = static_cast<int>(m.preds.size());
+        PredD u;
+        u.name = "P" + std::to_string(pu);
+        const std::string a = "a" + std::to_string(pu) + "_0";
+        u.rparams.push_back(a);
+        auto dj = std::make_shared<B>();
+        dj->k = B::OR;
+        for (auto &bn : {ub, uc})
+        {
+          auto v = std::make_shared<B>();
+          v->k = B::BVAR;
+          v->p = {bn};
+          dj->sub.push_back(v);
+        }
+        auto eq = std::make_shared<B>();
+        eq->k = B::REL;
+        eq->rel = EQ;
+        eq->l.t.push_back({mpq_class(1), Path{ux}});
+        eq->r.t.push_back({mpq_class(1), Path{a}});
+        for (auto &bb : {dj, eq})
+        {
+          auto it = std::make_shared<BodyItem>();
+          it->k = BodyItem::ASSERT;
+          it->b = bb;
+          u.body.push_back(it);
+        }
+        m.preds.push_back(u);
+        const size_t first_stmt = m.stmts.size() - 3; // the three declarations above
+        auto formula = [&](bool fact, const mpq_class *k)
+        {
+          auto it = std::make_shared<BodyItem>();
+          it->k = BodyItem::SUBGOAL;
+          it->pred = pu;
+          it->is_fact = fact;
+          it->local = (fact ? "f" : "g") + std::to_string(m.n_formulas++);
+          std::string at;
+          if (k)
+          {
+            Arg ar;
+            ar.param = a;
+            ar.val.k = *k;
+            it->args.push_back(ar);
+            at = a + ":" + (sgn(*k) < 0 ? "-" : "") + qtext(*k);
+          }
+          Stmt st;
+          st.k = Stmt::FORMULA;
+          st.item = it;
+          st.text = std::string(fact ? "fact " : "goal ") + it->local + " = new " + u.name + "(" + at + ");";
+          m.stmts.push_back(st);
+          ++order;
+          top.nums.push_back({it->local, a});
+        };
+        const mpq_class k1(modn(op.arg(1), 4)), k2 = k1 + 1 + modn(op.arg(2), 3);
+        formula(true, nullptr);
+        formula(false, (op.arg(6) & 1) ? &k2 : &k1);
+        formula(false, (op.arg(6) & 1) ? &k1 : &k2);
+        std::string text = "predicate " + u.name + "(real " + a + ") {\n  " + btext(dj) + ";\n  " + btext(eq) + ";\n}\n";
+        for (size_t i = first_stmt; i < m.stmts.size(); ++i)
+          text += m.stmts[i].text + "\n";
+        block_text = text;
+        m.mention_root(ux), m.mention_root(ub), m.mention_root(uc);
+        return;
+      }
       const long flavour = modn(op.arg(0), 4), how = modn(op.arg(5), 3);
       const int pu = static_cast<int>(m.preds.size());
       PredD u;
